@@ -494,12 +494,12 @@ PROPS = {
                       "(resolve_single_instance), while without it two instances arise (resolve_double_load_pinned) and two instances lose "
                       "an acknowledged edit (two_instances_lose_edit). Regenerated on every run: every statement handing a loaded entity to "
                       "a mutating function sits inside the entity's lock (gen_entity_calls_locked) and Resolve looks again "
-                      "(gen_resolve_rechecks). Real goroutines on one cache are run against this.",
+                      "(gen_resolve_rechecks). Real goroutines on one cache are run against this. No call deadlocks, at the level of lock requests: for any number of goroutines and read-write mutexes with Go's semantics, when every blocked goroutine holds only mutexes smaller than the one it asks for, some goroutine can always step (deadlock_free); asking again for a read lock one holds, with a writer in between, blocks for ever (nested_rlock_deadlocks: the Query(nil) defect found and repaired); the lock order and the absence of nested acquisition are regenerated from the source (gen_lock_order).",
         "level_note": "Trusted: Lean kernel, extractor, harness. The critical sections are modelled as atomic; that sync.RWMutex makes them so, "
                       "and that nothing outside them touches the entity, is what the extractor and the run check from outside. Eviction of an "
                       "instance a goroutine still holds is a known finding.",
         "required_theorems": ["locked_no_loss", "runLocked_perm", "runLocked_extends", "two_instances_lose_edit", "resolve_single_instance",
-                              "resolve_double_load_pinned", "gen_entity_calls_locked", "gen_resolve_rechecks"],
+                              "resolve_double_load_pinned", "gen_entity_calls_locked", "gen_resolve_rechecks", "deadlock_free", "nested_rlock_deadlocks", "gen_lock_order"],
         "slices": ["C18"],
         "timeout": {"quick": 2400, "thorough": 7200},
         "rule": "one go-git repository and one RepoCache reopened so that nothing is loaded; 2..16 goroutines x GOMAXPROCS 1..16 x cache size "
@@ -510,7 +510,7 @@ PROPS = {
                 "non-trivial/distinct = distinct (configuration, bug, stored order)",
         "trusted_base": [KERNEL, TIE, "model: GitBugModel.Conc (runLocked, rstep, isInterleaving)", "Go's sync.RWMutex and scheduler"],
         "assumptions": ["goroutines do not keep an instance across its eviction (the known finding covers the case where they do)"],
-        "gen_facts": ["Gen.Locks.entityCalls = statements of cache/bug_cache.go and cache/cached.go that hand the entity to a mutating function, and whether they sit between mu.Lock and mu.Unlock; resolveRechecks"],
+        "gen_facts": ["Gen.Locks.entityCalls = statements of cache/bug_cache.go and cache/cached.go that hand the entity to a mutating function, and whether they sit between mu.Lock and mu.Unlock; resolveRechecks", "Gen.LockNest: calls made inside the lock regions of the cache methods: nestedSame (a method of the same receiver that takes the held mutex again), againstOrder (sub-cache mutex requested under an entity mutex), acquiring, scanned"],
     },
     "C16": {
         "level_text": "PARTIAL (GitLab bridge only; go-gitlab's client and the HTTP layer are exercised, not modelled). Proved for the "
